@@ -364,3 +364,27 @@ REGISTRY["C08"]["harnesses"] += K_STEPS[:2] + K_XSTEPS
 REGISTRY["C02"]["harnesses"] += K_STEPS[:2]
 REGISTRY["C10"]["harnesses"] += [K_STEPS[2], K_XSTEPS[1]]
 REGISTRY["C06"]["harnesses"] += [K_STEPS[1]]
+
+# ---------------------------------------------------------------------------------------------
+_MAPS = "std HashMap/HashSet replaced by the association-list model /verif/kani/models/maps.rs (Hash never called)"
+REGISTRY["C14"] = {
+    "level": "model_checking",
+    "explanation": "Bounded model checking of both import implementations (strat_into_box_slow as compiled; strat_into_box with the container model) against an independent contract "
+                   "predicate and against each other, on symbolic candidate strategies.",
+    "assumptions": [_MAPS, "game tables built directly: one 2-action infoset and one single-action infoset for the importing player"],
+    "harnesses": [
+        H("c14_import_slow_contract", f"{LIB}::c14", "quick", functions=["Game::strat_into_box_slow", "split::split_by_mut"],
+          bounds="2 entries (infoset label in {multi, single, unknown}); first with 0..2, second with 0..1 (action, weight) pairs; actions in {legal 0, legal 1, the single action, illegal}; weights in {-1,-0,0,1,3,1e308,+inf,NaN}; unwind 3",
+          role="accepts iff no documented rule is violated; error kind names a violated rule; value = weight/total with last write winning; accepted result is a distribution"),
+        H("c14_import_hash_contract", f"{LIB}::c14", "quick", functions=["Game::strat_into_box"], stubs=[_MAPS], playback=True,
+          bounds="same inputs", role="same contract for the hash-based import"),
+        H("c14_import_paths_agree", f"{LIB}::c14", "quick", functions=["Game::strat_into_box", "Game::strat_into_box_slow"], stubs=[_MAPS], playback=True,
+          bounds="same inputs", role="both functions: same error kind or bit-identical probabilities"),
+    ],
+}
+MANIFEST_TEXT["C14"] = {
+    "engine": "kani",
+    "technique": "bounded model checking (Kani/CBMC SAT) of both strategy-import functions against a contract predicate and each other",
+    "text": "For every candidate strategy within the bounds (two entries, up to three (action, weight) pairs, names covering missing / extra / other-player / illegal cases, weights on a lattice of special values incl. -0, huge, inf, NaN) the solver shows: success iff the documented rules hold, the error kind names a violated rule, values are weight/total with the last entry winning, the accepted result is a distribution, and the hash-based and scan-based functions agree bit for bit.",
+    "note": "The hash-based path runs over an association-list model of HashMap (trusted; Hash/bucket behaviour outside). Bounded list lengths; weights restricted to the stated lattice.",
+}
